@@ -30,6 +30,7 @@ type (
 		Fun  string
 		Pkg  string
 		Args []Expr
+		Recv Expr // method call on a value (deterministic extern accessor)
 	}
 	EOld   struct{ X Expr }
 	EQuant struct {
@@ -173,6 +174,7 @@ type SpecFile struct {
 	Axioms  []Clause
 	Lemmas  []Clause
 	Types   map[string][]Binder // spec-level tuple types
+	Determ  []string            // receivers / functions whose contract-less extern methods are deterministic
 }
 
 // ---------------------------------------------------------------------------
@@ -478,12 +480,24 @@ func (p *parser) parsePostfix() Expr {
 				x = &ETypeAssert{x, t}
 				continue
 			}
-			name := p.ident()
+			var name string
+			if p.isOp("*") {
+				p.next()
+				name = "*"
+			} else {
+				name = p.ident()
+			}
 			// qualified call or constant: pkg.Name(...)
 			if id, ok := x.(*EIdent); ok && p.isOp("(") {
 				p.next()
 				args := p.parseArgs()
 				x = &ECall{Pkg: id.Name, Fun: name, Args: args}
+				continue
+			}
+			if p.isOp("(") {
+				p.next()
+				args := p.parseArgs()
+				x = &ECall{Recv: x, Fun: name, Args: args}
 				continue
 			}
 			x = &ESel{x, name}
@@ -616,7 +630,7 @@ func parseExprString(s string) (e Expr, err error) {
 // ---------------------------------------------------------------------------
 // Contract file reader
 
-var topKeywords = map[string]bool{"func": true, "ghost": true, "ufunc": true, "pure": true, "pred": true, "axiom": true, "lemma": true, "type": true, "extern": true}
+var topKeywords = map[string]bool{"deterministic": true, "func": true, "ghost": true, "ufunc": true, "pure": true, "pred": true, "axiom": true, "lemma": true, "type": true, "extern": true}
 var clauseKeywords = map[string]bool{"cases": true, "dispatch": true, "requires": true, "ensures": true, "modifies": true, "serves": true, "loop": true, "invariant": true,
 	"at": true, "after": true, "assert": true, "assume": true, "flag": true, "set": true}
 
@@ -727,6 +741,11 @@ func readSpecFile(path string, isSpec bool) (*SpecFile, error) {
 			fc.Extern = isSpec
 			sf.Funcs = append(sf.Funcs, fc)
 			cur, curLoop, curCall = fc, nil, nil
+		case "deterministic":
+			for _, f := range strings.Fields(rest) {
+				sf.Determ = append(sf.Determ, f)
+			}
+			cur = nil
 		case "ghost":
 			toks, err := lex(rest)
 			if err != nil {
